@@ -16,6 +16,50 @@ func genVarLayers() {
 	fd := root.funcDecl("Compiler.getVariables")
 	var order [][2]string
 	var marks []string
+	// names of the receiver and parameters → their types, so that renaming them changes nothing
+	tyOf := map[string]string{}
+	if fd != nil {
+		if fd.Recv != nil {
+			for _, f := range fd.Recv.List {
+				for _, n := range f.Names {
+					tyOf[n.Name] = strings.TrimPrefix(src(f.Type), "*")
+				}
+			}
+		}
+		for _, f := range fd.Type.Params.List {
+			for _, n := range f.Names {
+				tyOf[n.Name] = strings.TrimPrefix(src(f.Type), "*")
+			}
+		}
+	}
+	norm := func(e string) string {
+		if i := strings.Index(e, "."); i > 0 {
+			if t, ok := tyOf[e[:i]]; ok {
+				return t + e[i:]
+			}
+		}
+		return e
+	}
+	// closures made by getRangeFunc(<dir>): "root" when applied to <receiver>.Dir, else "task"
+	closure := map[string]string{}
+	if fd != nil {
+		ast.Inspect(fd, func(n ast.Node) bool {
+			as, ok := n.(*ast.AssignStmt)
+			if !ok || len(as.Lhs) != 1 || len(as.Rhs) != 1 {
+				return true
+			}
+			ce, ok := as.Rhs[0].(*ast.CallExpr)
+			if !ok || src(ce.Fun) != "getRangeFunc" || len(ce.Args) != 1 {
+				return true
+			}
+			kind := "task"
+			if norm(src(ce.Args[0])) == "Compiler.Dir" {
+				kind = "root"
+			}
+			closure[src(as.Lhs[0])] = kind
+			return true
+		})
+	}
 	if fd != nil {
 		var walk func(stmts []ast.Stmt)
 		walk = func(stmts []ast.Stmt) {
@@ -27,14 +71,16 @@ func genVarLayers() {
 						fn := ""
 						ast.Inspect(x.Body, func(n ast.Node) bool {
 							if ce, ok := n.(*ast.CallExpr); ok {
-								if id, ok := ce.Fun.(*ast.Ident); ok && (id.Name == "rangeFunc" || id.Name == "taskRangeFunc") {
-									fn = id.Name
+								if id, ok := ce.Fun.(*ast.Ident); ok {
+									if k, ok := closure[id.Name]; ok {
+										fn = k
+									}
 								}
 							}
 							return true
 						})
-						order = append(order, [2]string{strings.TrimSuffix(xs, ".All()"), fn})
-						marks = append(marks, "loop:"+strings.TrimSuffix(xs, ".All()"))
+						order = append(order, [2]string{norm(strings.TrimSuffix(xs, ".All()")), fn})
+						marks = append(marks, "loop:"+norm(strings.TrimSuffix(xs, ".All()")))
 					} else if xs == "specialVars" {
 						marks = append(marks, "special")
 					}
@@ -43,7 +89,7 @@ func genVarLayers() {
 					if strings.HasPrefix(s, "result := env.GetEnviron()") {
 						marks = append(marks, "osEnviron")
 					}
-					if strings.HasPrefix(s, "taskRangeFunc = getRangeFunc(") {
+					if len(x.Lhs) == 1 && closure[src(x.Lhs[0])] == "task" && strings.Contains(s, "getRangeFunc(") {
 						marks = append(marks, "taskDirResolved")
 					}
 				case *ast.IfStmt:
